@@ -92,7 +92,7 @@ func RandomProgram(seed uint64, o RandomOpts) *Program {
 		// names that extend the name of an earlier type (prefix relations between type names)
 		if len(p.Messages) > 0 && r.p(1, 4) {
 			prev := p.Messages[r.n(len(p.Messages))].Name
-			cand := prev + []string{"V2", "Ext", "x"}[r.n(3)]
+			cand := prev + []string{"V2", "Ext", "Two"}[r.n(3)]
 			if p.Msg(cand) == nil && prev != "Void" {
 				name = cand
 			}
